@@ -421,7 +421,7 @@ func c05KEK(c *eng.Ctx, k *kvAnalysis) {
 		for _, h := range hits {
 			call := h.In.(*ssa.Call)
 			fr, _, isF := eng.LoadedField(call.Call.Value)
-			c.Check(isF && fr.Is("db", "kv", "dekCipher"), "R-C05-6", h.Fn, h.In.Pos(), "AEAD use reachable from "+m.Name+": "+eng.CallStr(&call.Call), "a running server encrypts/decrypts only with the data key (kv.dekCipher)", "")
+			c.Check(isF && isKVRole(p, fr, "dekCipher"), "R-C05-6", h.Fn, h.In.Pos(), "AEAD use reachable from "+m.Name+": "+eng.CallStr(&call.Call), "a running server encrypts/decrypts only with the data key (kv.dekCipher)", "")
 		}
 	}
 	_ = open
